@@ -14,8 +14,8 @@ SHARD = 40
 RULE = ("kernel states drawn from a grammar: 0-30 sockets over /proc/net/{tcp,tcp6,udp,udp6,unix} (IPv4/IPv6 addresses incl. "
         "zero, loopback, v4-mapped, link-local, all-ones, random; ports {0,1,22,80,443,65535,random}; all 11 TCP states; inode 0 "
         "TIME_WAIT lines; UNIX stream/dgram/seqpacket, unbound / path / path with blanks, tabs, trailing blank / @abstract / "
-        "UTF-8 / undecodable bytes / leading blank), 1-4 processes (visible or EACCES fd directory) holding each socket through "
-        "0-3 descriptors shared between processes, closed and non-socket descriptors, absent IPv6 files, little- and big-endian "
+        "UTF-8 / undecodable bytes / leading, trailing, repeated blanks and tabs), 1-4 processes (visible or EACCES fd directory) holding each socket through "
+        "0-3 descriptors shared between processes (TCP/UDP and UNIX), closed and non-socket descriptors, absent IPv6 files, little- and big-endian "
         "decoding; every state is queried system-wide with all 11 kinds + junk kinds and per process; plus address-only cases "
         "(every byte value at every address position in the exhaustive part) and a malformed stream (mutated lines, odd links). "
         "A case is non-trivial when it has at least one socket; distinct = distinct canonical case hash.")
@@ -32,6 +32,16 @@ EXHAUSTIVE = {"quick": "kind x (family,type): all 11 kinds over a state holding 
               "thorough": "all 11 kinds x 7 (family,type) classes; all 11 TCP states x {v4,v6}; every byte value 0..255 at every one of the "
                           "4 (v4) and 16 (v6) address positions, both byte orders; ports 0..65535 step 257 plus borders"}
 
+# Model switches (coq/C11/Model.v [variant]): True/True = [current], the code as it is now (both repairs are in /repo);
+# False = the code before the repair.  C11_VARIANT="" (or "merge" / "exact") overrides them for a trial run against a copy
+# of the tree without the fix(es) (VERIF_REPO=<copy>).
+MERGE_INODES = True       # fix d36edd1 (get_all_inodes keeps every holder)
+EXACT_UNIX_PATH = True    # fix 9cf9292 (UNIX name = everything after the single blank that follows the inode)
+if os.environ.get("C11_VARIANT") is not None:
+    MERGE_INODES = "merge" in os.environ["C11_VARIANT"].split()
+    EXACT_UNIX_PATH = "exact" in os.environ["C11_VARIANT"].split()
+VARIANT = "(Build_variant %s %s)" % (G.bo(MERGE_INODES), G.bo(EXACT_UNIX_PATH))
+
 KINDS = ["all", "inet", "inet4", "inet6", "tcp", "tcp4", "tcp6", "udp", "udp4", "udp6", "unix"]
 JUNK = ["", "TCP", "tcp ", "inet5", "unix6", "all\n", "raw", "Tcp4", "None", " udp", "tcp4,tcp6", "inét"]
 AF_UNIX, AF_INET, AF_INET6 = 1, 2, 10
@@ -45,7 +55,7 @@ PORTS = [0, 0, 1, 22, 80, 443, 65535, 40521]
 PATHS = [None, None, b"/run/x.sock", b"/tmp/a b", b"/tmp/a  b c", b"@abstract", b"@abs with blank ", b"/tmp/trail ",
          b"/tmp/s\xc3\xb6k", b"/tmp/a\tb", b"/tmp/\xff\xfe", b"@", b"/var/run/dbus/system_bus_socket", b"x", b"@00012",
          b"/tmp/\xe2\x82\xac", b"/a/" + b"p" * 100]
-LEAD_WS_PATHS = [b" lead", b"\tx", b"  two", b" @abs", b" "]
+LEAD_WS_PATHS = [b" lead", b"\tx", b"  two", b" @abs", b" ", b"   ", b" a b ", b" \t mixed  blanks "]
 OTHER_TARGETS = ["pipe:[%d]", "anon_inode:[eventpoll]", "/dev/null", "/nonexistent/file%d", "/nonexistent/x%d (deleted)",
                  "anon_inode:[eventfd]", "net:[4026531992]", "/nonexistent/socket:[%d]"]
 
@@ -69,14 +79,14 @@ def _isock(rng, v6, tcp, inode):
 
 
 def _usock(rng, inode, lead_ws=False):
-    p = rng.choice(LEAD_WS_PATHS) if lead_ws else rng.choice(PATHS)
+    p = rng.choice(LEAD_WS_PATHS) if lead_ws or rng.random() < 0.05 else rng.choice(PATHS)
     return {"type": rng.choice([1, 1, 2, 5]), "inode": inode, "path": None if p is None else p.hex(),
             "ref": rng.choice([2, 3]), "flags": rng.choice([0, 0x10000]), "st": rng.choice([1, 3]),
             "xpad": rng.choice([0, 0, 0, 2])}
 
 
 def _state(rng, size, flavour):
-    """flavour: plain | ushared (UNIX sockets may be shared between processes) | leadws (a leading-blank UNIX name)."""
+    """flavour: plain | ushared (more UNIX sockets shared between processes) | leadws (at least one leading-blank UNIX name)."""
     npids = rng.choice([1, 2, 2, 3, 4])
     pids = rng.sample([1, 7, 10, 20, 333, 4242, 99999, 4194304], npids)
     procs = [{"pid": p, "visible": rng.random() < 0.85, "fds": []} for p in pids]
@@ -93,9 +103,7 @@ def _state(rng, size, flavour):
         k = rng.choice([0, 1, 1, 1, 2, 3])
         if k == 0 or inode == 0:
             return
-        share = rng.random() < 0.4
-        if is_unix and flavour != "ushared":
-            share = False
+        share = rng.random() < (0.7 if is_unix and flavour == "ushared" else 0.4)
         owners = [rng.choice(procs)] * k if not share else [rng.choice(procs) for _ in range(k)]
         for p in owners:
             fd = rng.choice([x for x in list(range(0, 60)) + [255, 1023, 65535, 1048575] if x not in used_fd[p["pid"]]])
@@ -272,8 +280,8 @@ def _raw_case(rng):
 
 
 def gen_cases(rng, tier):
-    n_state = {"quick": 200, "thorough": 3000, "search": 400}[tier]
-    n_raw = {"quick": 100, "thorough": 1500, "search": 150}[tier]
+    n_state = {"quick": 200, "thorough": 2500, "search": 400}[tier]
+    n_raw = {"quick": 100, "thorough": 1200, "search": 150}[tier]
     n_addr = {"quick": 150, "thorough": 2000, "search": 150}[tier]
     cases = []
     # ---- enumerated parts
@@ -410,8 +418,8 @@ def coq_term(case):
                 return "None"
             t = G.lst([_isock_term(s, i, wide) for i, s in enumerate(v)])
             return "(Some %s)" % t if name.endswith("6") else t
-        return "run_state %s (Build_kstate %s %s %s %s %s %s) %s %s" % (
-            G.bo(case["le"]), tbl("tcp4", False), tbl("tcp6", False), tbl("udp4", True), tbl("udp6", True),
+        return "run_state %s %s (Build_kstate %s %s %s %s %s %s) %s %s" % (
+            VARIANT, G.bo(case["le"]), tbl("tcp4", False), tbl("tcp6", False), tbl("udp4", True), tbl("udp6", True),
             G.lst([_usock_term(u) for u in case["unix"]]), G.lst([_kproc_term(p) for p in case["procs"]]),
             _kinds_term(case["kinds"]), _sel_term(case["sel"]))
     if k == "raw":
@@ -423,7 +431,7 @@ def coq_term(case):
             else:
                 ls = {"denied": "LsDenied", "gone": "LsGone"}[p["listing"]]
             procs.append("(%s, %s)" % (G.z(p["pid"]), ls))
-        return "run_raw %s %s %s %s %s" % (G.bo(case["le"]), fs, G.lst(procs), _kinds_term(case["kinds"]), _sel_term(case["sel"]))
+        return "run_raw %s %s %s %s %s %s" % (VARIANT, G.bo(case["le"]), fs, G.lst(procs), _kinds_term(case["kinds"]), _sel_term(case["sel"]))
     if k == "addr":
         return "run_addr %s %s %s" % (G.bo(case["le"]), _ipterm(case["ip"]), G.z(case["port"]))
     if k == "addr_raw":
@@ -498,9 +506,10 @@ def _entries_ok(impl, entries, per_process):
 def finding_key(case, coq):
     if case["kind"] != "state":
         return None
-    if any(u["path"] is not None and bytes.fromhex(u["path"])[:1] and bytes.fromhex(u["path"])[0] in WS for u in case["unix"]):
+    if not EXACT_UNIX_PATH and any(u["path"] is not None and bytes.fromhex(u["path"])[:1]
+                                   and bytes.fromhex(u["path"])[0] in WS for u in case["unix"]):
         return "unix-path-leading-blank"
-    if _unix_shared(case):
+    if not MERGE_INODES and _unix_shared(case):
         return "unix-socket-shared-between-processes"
     return None
 
@@ -708,11 +717,12 @@ MANIFEST = {
             "type) classes the documented kind table admits, agrees with conn_tmap, and every kind outside the 11 raises ValueError whatever the "
             "kernel state; (2) for every IPv4/IPv6 address and every port the decoder returns the address bytes and port the kernel printed "
             "(both byte orders), () for port 0; (3) for every kernel state (any number of sockets, any addresses/ports, all 11 TCP states, UNIX "
-            "names with blanks/@abstract, any descriptor tables, hidden processes, absent IPv6 files) and every kind, the system-wide and the "
-            "per-process answers contain exactly the demanded rows in order, with an admissible owner ((None,-1) when no holder is visible, one "
-            "row per holder for UNIX sockets). Two classes are excluded as decidable hypotheses and refuted by witnesses (known findings): a "
-            "UNIX socket held by two processes (dict.update drops holders) and a UNIX name starting with white space. The model is tied to the "
-            "code by running real psutil through its public API over a fake /proc for generated states, all kinds, and a malformed stream.",
+            "names with leading/trailing/repeated blanks and @abstract names, any descriptor tables incl. sockets shared between processes, hidden "
+            "processes, absent IPv6 files) and every kind, the system-wide and the per-process answers contain exactly the demanded rows in order, "
+            "with an admissible owner ((None,-1) when no holder is visible, one row per holder for UNIX sockets; TCP/UDP: the first holder in scan "
+            "order) -- no excluded class. The code before the fixes d36edd1 / 9cf9292 is kept as a model variant with the two refuted statements. "
+            "The model is tied to the code by running real psutil through its public API over a fake /proc for generated states, all kinds, and a "
+            "malformed stream.",
     "note": "Trusted: Coq kernel + vm_compute; hand-written model coq/C11/Model.v (tied by the correspondence run only); kernel formats in "
             "coq/C11/Spec.v; the table translator; harness (fake /proc, os.listdir/os.readlink patches); CPython builtins; glibc inet_ntop "
             "(addresses compared as packed bytes). Text-mode-only white space (\\r, \\x1c-\\x1f, Unicode blanks) is outside the model. "
